@@ -1,5 +1,5 @@
 #!/usr/bin/env python3
-"""Markdown table of the round-2 (and C04-C06) seeded changes from seeded/*/verif_result.json + short descriptions."""
+"""Markdown table of the rounds 2 and 3 (and C04-C06 round 1) seeded changes from seeded/*/verif_result.json + short descriptions."""
 import json, glob, os, re
 ROOT = os.path.dirname(os.path.dirname(os.path.abspath(__file__)))
 DESC = {
@@ -89,10 +89,17 @@ def short(vs):
         v = v.replace('.json', '')
         m = re.match(r'C\d+-(monitor|extra|search)-(.*)', v)
         if m:
-            out.append('`' + m.group(2).replace('_', '-', 1).replace('_', '-') + '`')
+            out.append('`' + m.group(2).replace('_', ':', 1).replace('_', '-') + '`')
         elif 'tie' in v:
             out.append('pin / tie only')
-    return ', '.join(dict.fromkeys(out))[:160] or '-'
+    items = list(dict.fromkeys(out))
+    txt = ''
+    for k, it in enumerate(items):
+        if len(txt) + len(it) > 150:
+            txt += ', …'
+            break
+        txt += (', ' if txt else '') + it
+    return txt or '-'
 print('| Seed | Change (what it needs) | First run | Final run |')
 print('|---|---|---|---|')
 for d in sorted(glob.glob(os.path.join(ROOT, 'seeded', 'C*'))):
